@@ -132,7 +132,7 @@ def check_c10(tier):
     config_chain(V, {'capacity'})
     extra = ['VX_PLAN_FIRSTLAST'] if firstlast else []
     # plan through a real machine
-    specs = [S('P5', 1, M_PL, O_PL), S('P6', 1, M_PL, O_PL), S('P3', 2, M_PL, O_PL), S('P7', 1, M_PL | mf('PAYLOAD'), O_PL | og('PAYLOAD')), S('P5h', 1, M_PL, O_PL | og('SERIAL', 'REPLAY')), S('P6m', 0, M_PL, O_PL | og('SERIAL', 'MANUAL')), S('P5t', 1, M_PL, O_PL), S('P5u', 1, M_PL, O_PL), S('P7u', 0, M_PL | mf('PAYLOAD'), O_PL | og('PAYLOAD'))]
+    specs = [S('P5', 1, M_PL, O_PL), S('P6', 1, M_PL, O_PL), S('P3', 2, M_PL, O_PL), S('P7', 1, M_PL | mf('PAYLOAD'), O_PL | og('PAYLOAD')), S('P5h', 1, M_PL, O_PL | og('SERIAL', 'REPLAY')), S('P6m', 0, M_PL, O_PL | og('SERIAL', 'MANUAL')), S('P5t', 1, M_PL, O_PL), S('P5u', 1, M_PL, O_PL), S('P8c', 0, M_PL, O_PL), S('P7u', 0, M_PL | mf('PAYLOAD'), O_PL | og('PAYLOAD'))]
     if tier == 'thorough': specs = [S('P5', 2, M_PL, O_PL, share=3), S('P6', 2, M_PL, O_PL, share=3), S('P3', 3, M_PL, O_PL), S('P7', 1, M_PL | mf('PAYLOAD'), O_PL | og('PAYLOAD')), S('P8', 1, M_PL, O_PL, share=3), S('P9', 1, M_PL, O_PL, share=2), S('P2', 1, M_PL | mf('PAYLOAD'), O_PL | og('PAYLOAD', 'MANUAL'), share=2)]
     saved = {}
     for sp in specs:
@@ -271,7 +271,7 @@ def check_c16(tier):
     d = 1 if tier == 'quick' else 2
     OL = O_T | og('LOG')
     specs = [S('T1', 2, M_T | mf('COMPOSITE'), og('CORE', 'LOG')), S('GP1', 1, M_P0 | mf('COMPOSITE'), O_P), S('T1', 2 if tier == 'quick' else 3, M_T, OL | og('REPLAY')), S('G1', d, M_T, OL), S('G2', d, M_T, OL), S('GP1', d, M_P0 | mf('GUARD_REQ'), O_P | og('REACT')), S('GP2', 1, M_P0, O_P), S('T2', 1, M_TP, O_TALL),
-             S('GI1', 2, M_T | mf('INJ_DECIDE'), OL), S('GI2', d, M_T | mf('INJ_DECIDE'), OL), S('GI1', 1, M_T | mf('INJ_DECIDE', 'COMPOSITE'), og('CORE', 'LOG')), S('GQ1', 1, M_P0 | mf('PAYLOAD'), O_P | og('PAYLOAD')), S('GQ2', 0, M_P0 | mf('PAYLOAD'), O_P | og('PAYLOAD')), S('G1t', 1, M_T, OL), S('GP1t', 1, M_P0, O_P)]
+             S('GI1', 2, M_T | mf('INJ_DECIDE'), OL), S('GI2', d, M_T | mf('INJ_DECIDE'), OL), S('GI1', 1, M_T | mf('INJ_DECIDE', 'COMPOSITE'), og('CORE', 'LOG')), S('GQ1', 1, M_P0 | mf('PAYLOAD'), O_P | og('PAYLOAD')), S('GQ2', 0, M_P0 | mf('PAYLOAD'), O_P | og('PAYLOAD')), S('G1t', 1, M_T, OL), S('GP1t', 1, M_P0, O_P), S('P5f', 1, M_P0, O_P), S('P5s', 1, M_P0, O_P), S('P5n', 1, M_P0, O_P), S('T1r', 1, M_T, OL)]
     vc.run_specs(V, specs, tier, budget=100 if tier == 'quick' else 600)
     # differential: compiled out / compiled in (attached, detached, attached later) / verbose must be behaviourally identical
     for fam, names, mfv, ogv, nflag in (('plain', ('L0', 'L1', 'L2'), M_T, O_T, '--neutral'), ('bare', ('G0', 'G1', 'G2'), M_T, O_T, '--neutral'), ('plans', ('GP0', 'GP1', 'GP2'), M_P0, og('CORE', 'PLAN', 'REPORT'), '--neutral'),
@@ -303,7 +303,7 @@ def check_c18(tier):
     V = Verdict('C18', tier)
     V.assumptions = ['histories respect the asserted preconditions of the library (DESIGN.md 4.3)', 'sanitizers: g++ 12 and clang 14 ASan+UBSan (no recovery), clang 14 MSan with the instance storage poisoned before construction; allocation entry points are wrapped/replaced and counted while a library call is on the stack']
     # (config, deviation bound plain build, deviation bound sanitizer builds, menus, operations)
-    base = [('T2', 1, 1, M_TP, O_TALL), ('T5', 1, 1, M_TP, O_TALL), ('T6', 1, 1, M_TP, O_TALL), ('P5', 1, 1, M_P, O_P | og('PLAN_REMOVE', 'COPY', 'DESTROY', 'REACT')), ('P7', 1, 0, M_P0 | mf('PAYLOAD'), O_P | og('PAYLOAD')), ('P3', 2, 1, M_P, O_PALL), ('T3', 2, 2, M_T, O_TALL), ('A2', 1, 0, mf('PHASE_REQ', 'GUARD_CANCEL', 'REPORT', 'PLAN_EDIT', 'PAYLOAD'), og('CORE', 'PLAN', 'REPORT', 'MANUAL', 'SERIAL', 'REPLAY', 'COPY', 'DESTROY', 'PAYLOAD', 'LOG'))]
+    base = [('P8c', 0, 0, M_P0, og('CORE', 'PLAN', 'REPORT')), ('T2', 1, 1, M_TP, O_TALL), ('T5', 1, 1, M_TP, O_TALL), ('T6', 1, 1, M_TP, O_TALL), ('P5', 1, 1, M_P, O_P | og('PLAN_REMOVE', 'COPY', 'DESTROY', 'REACT')), ('P7', 1, 0, M_P0 | mf('PAYLOAD'), O_P | og('PAYLOAD')), ('P3', 2, 1, M_P, O_PALL), ('T3', 2, 2, M_T, O_TALL), ('A2', 1, 0, mf('PHASE_REQ', 'GUARD_CANCEL', 'REPORT', 'PLAN_EDIT', 'PAYLOAD'), og('CORE', 'PLAN', 'REPORT', 'MANUAL', 'SERIAL', 'REPLAY', 'COPY', 'DESTROY', 'PAYLOAD', 'LOG'))]
     if tier == 'thorough': base = [('T2', 2, 2, M_TP, O_TALL), ('T5', 2, 1, M_TP, O_TALL), ('T6', 2, 2, M_TP, O_TALL), ('T1', 2, 2, M_T, O_TALL), ('P5', 2, 1, M_PG, O_PALL), ('P7', 1, 1, M_P | mf('PAYLOAD'), O_PALL), ('P3', 3, 2, M_P, O_PALL), ('T3', 3, 3, M_T, O_TALL), ('P2', 1, 0, M_P0 | mf('PAYLOAD'), O_P | og('PAYLOAD', 'MANUAL', 'REPLAY')), ('T4', 1, 1, M_T, O_TALL), ('I1', 1, 1, M_T, O_T), ('P4', 0, 0, M_P0 | mf('PAYLOAD'), O_P | og('PAYLOAD'))]
     specs = []
     for (c, d, ds, m, o) in base:
@@ -413,7 +413,7 @@ def check_c19(tier):
                 b, err = built[fh]
                 if err: return (fh, None, err)
                 f, h = fh
-                return (fh, run_fsmx(b, 'F%d[%s]/%s/uses[%s]' % (bi, '+'.join(f), h, '+'.join(U)), ['C19'], (0 if ('PLANS' in U and tier == 'quick') else 1), (M_TP if base.get('PAYLOAD') else M_T) | mfx, O_T | og('PAYLOAD', 'MANUAL') | ogx, workers=1, flags=['--neutral=%d' % mask, '--no-fresh'], deadline=150, samples=1), None)
+                return (fh, run_fsmx(b, 'F%d[%s]/%s/uses[%s]' % (bi, '+'.join(f), h, '+'.join(U)), ['C19'] + ([] if U else ['C17']), (0 if ('PLANS' in U and tier == 'quick') else 1), (M_TP if base.get('PAYLOAD') else M_T) | mfx, O_T | og('PAYLOAD', 'MANUAL') | ogx, workers=1, flags=['--neutral=%d' % mask, '--no-fresh'] + ([] if U else ['--copy', '--copy-move', '--copy-dev=0']), deadline=150, samples=1), None)
             with ThreadPoolExecutor(max_workers=NCPU) as ex:
                 outs = list(ex.map(runone, group))
             for (f, h), run, err in outs:
